@@ -9,7 +9,6 @@ import (
 
 // ---------------------------------------------------------------- well-formed certificates
 
-
 // Voter is a well-formed voting certificate (kind 1 sensitive, 2 regular).
 func Voter(kind int, name Name, serial int64, key int, nb, na int64) Cert {
 	return Cert{EKUs: []int{kind}, TS: true, PathLen: -1, SigAlgOK: true, SKID: key, AKID: 0,
@@ -262,7 +261,7 @@ func CloneTRC(t TRC) TRC {
 }
 
 // TRCMutations is the number of single payload mutations MutateTRC knows.
-const TRCMutations = 32
+const TRCMutations = 33
 
 func classOf(c Cert) int {
 	if len(c.EKUs) > 0 {
@@ -486,7 +485,7 @@ func MutateTRC(r *vgen.Rand, t TRC, k int) (TRC, string) {
 		idx := append([]int{}, perm[:n]...)
 		sort.Ints(idx)
 		donor := t.Certs[pickClass(r, t, 3)] // a root: its issuer name carries an ISD-AS
-		first, second := 0, n-1                // positions (within idx) of the two colliding certificates
+		first, second := 0, n-1              // positions (within idx) of the two colliding certificates
 		if k == 31 {
 			first = r.Intn(n)
 			second = (first + 1 + r.Intn(n-1)) % n
@@ -500,6 +499,13 @@ func MutateTRC(r *vgen.Rand, t TRC, k int) (TRC, string) {
 			}
 		}
 		what = fmt.Sprintf("duplicate-issuer-serial-among-%d-at-%d-%d", n, first, second)
+	case 32:
+		// a second certificate for a subject of the same class whose distinguished name is
+		// DER-encoded differently (UTF8String instead of PrintableString values): same name
+		kind := r.Range(1, 3)
+		c := OtherEncoding(t.Certs[pickClass(r, t, kind)])
+		t.Certs = insertAt(t.Certs, r.Intn(len(t.Certs)+1), c)
+		what = fmt.Sprintf("duplicate-subject-other-encoding-class-%d", kind)
 	}
 	return t, what
 }
@@ -617,4 +623,18 @@ func Boundary(r *vgen.Rand, k int) (TRC, string) {
 		what += "+description-1024-cert-as-boundaries"
 	}
 	return t, what
+}
+
+// OtherEncoding returns a certificate for the same subject (as a name) with a new key and
+// serial whose subject is encoded with the other ASN.1 string type.
+func OtherEncoding(c Cert) Cert {
+	c.EKUs = append([]int{}, c.EKUs...)
+	c.UTF8 = !c.UTF8
+	c.Serial += 9000
+	c.Key += 470
+	c.SKID = c.Key
+	if c.AKID != 0 {
+		c.AKID = c.SKID
+	}
+	return c
 }
